@@ -116,12 +116,17 @@ func runC10(c *Ctx) {
 				pred := args[len(args)-1]
 				// the very field value, not an expression computed from it: search,
 				// count and rewrite must see the identical predicate text
-				fromReq := loadsField(pred, "DeleteRequest", "Where")
+				fromReq := fieldSources(pred, 4)["DeleteRequest.Where"]
+				if validate != nil {
+					va := validate.Common().Args
+					// identical value (same SSA value, or loads of the same field of the same struct)
+					fromReq = fromReq && samePathValue(va[len(va)-1], pred)
+				}
 				valid := validate != nil && callSucceededBefore(validate, call.(ssa.Instruction))
 				construct := fmt.Sprintf("handleDelete|%s#%d", name, i+1)
 				switch {
 				case !fromReq:
-					c.Bad("C10.SAME", construct, call.Pos(), "%s is not given the request's where field itself (search, count and rewrite must evaluate the identical predicate text)", name)
+					c.Bad("C10.SAME", construct, call.Pos(), "%s is not given the same predicate value that validateWhereClause checked (search, count and rewrite must evaluate the identical, validated predicate text)", name)
 				case !valid:
 					c.Bad("C10.SAME", construct, call.Pos(), "%s runs without validateWhereClause having returned nil for the predicate", name)
 				default:
